@@ -560,6 +560,14 @@ impl MutableArchive {
         use std::fs;
         use tempfile::NamedTempFile;
 
+        // File names and contents are read through the on-disk view of the archive, so
+        // write out pending changes and refresh that view first
+        self.flush()?;
+        self.archive = Archive::open(&self._path)?;
+        self.hash_table = None;
+        self.block_table = None;
+        self.next_file_offset = None;
+
         // Ensure tables are loaded
         self.ensure_tables_loaded()?;
 
@@ -609,12 +617,24 @@ impl MutableArchive {
                         None
                     };
 
-                    let filename = filename.unwrap_or_else(|| {
-                        // Generate placeholder name if not found in listfile
-                        generate_anonymous_filename(
-                            ((entry.name_1 as u64) << 32 | entry.name_2 as u64) as u32,
-                        )
+                    // The special files are not necessarily listed
+                    let filename = filename.or_else(|| {
+                        ["(listfile)", "(attributes)", "(signature)"]
+                            .into_iter()
+                            .find(|name| {
+                                entry.name_1 == hash_string(name, hash_type::NAME_A)
+                                    && entry.name_2 == hash_string(name, hash_type::NAME_B)
+                            })
+                            .map(str::to_string)
                     });
+
+                    // Rebuilding stores every file under its name. A file whose name is not
+                    // known would only be reachable under a made-up name afterwards.
+                    let Some(filename) = filename else {
+                        return Err(Error::invalid_format(
+                            "Cannot compact: the archive holds a file whose name is not in its (listfile)",
+                        ));
+                    };
 
                     files_to_copy.push((hash_idx, block_idx, filename, *entry, *block));
                 }
